@@ -91,4 +91,20 @@ func init() {
 			Old: pausedHead, New: pausedHeadRec, More: recEdits("\tcase phases.unknown ||\n\t\t!objectSet.IsSpecPaused() && phases.paused:\n", "\tcase objectSet.IsSpecPaused():\n"),
 			Expect: []string{"C09.R3@(*internal/controllers/objectsets.GenericObjectSetController).reportPausedCondition#Paused=True"}},
 	)
+
+	// ---- C18.R11: merge of rendered and existing metadata, spelled out with range loops
+	const tmplrec = "internal/controllers/objecttemplate/template_reconciler.go"
+	const mergeLabels = "\tobj.SetLabels(labels.Merge(existingObj.GetLabels(), obj.GetLabels()))\n"
+	loops := func(first, second string) string {
+		return "\tmergedLabels := map[string]string{}\n\tfor k, v := range " + first + ".GetLabels() {\n\t\tmergedLabels[k] = v\n\t}\n\tfor k, v := range " + second + ".GetLabels() {\n\t\tmergedLabels[k] = v\n\t}\n\tobj.SetLabels(mergedLabels)\n"
+	}
+	addMutants(
+		Mutant{Prop: "C18", Name: "benign-label-merge-spelled-out", File: tmplrec, Benign: true, Old: mergeLabels, New: loops("existingObj", "obj")},
+		Mutant{Prop: "C18", Name: "r11-spelled-out-merge-existing-labels-win", File: tmplrec, Old: mergeLabels, New: loops("obj", "existingObj"),
+			Expect: []string{"C18.R11@(*internal/controllers/objecttemplate.templateReconciler).Reconcile#rendered-labels-win"}},
+		Mutant{Prop: "C18", Name: "r11-existing-annotations-win", File: tmplrec,
+			Old:    "\tobj.SetAnnotations(labels.Merge(existingObj.GetAnnotations(), obj.GetAnnotations()))\n",
+			New:    "\tobj.SetAnnotations(labels.Merge(obj.GetAnnotations(), existingObj.GetAnnotations()))\n",
+			Expect: []string{"C18.R11@(*internal/controllers/objecttemplate.templateReconciler).Reconcile#rendered-annotations-win"}},
+	)
 }
